@@ -201,7 +201,7 @@ def main(chk):
             model_only.append(r)
     chk.cov["input_distribution"] = hist
     chk.cov["forests"] = len(forests)
-    chk.cov["rule"] = ("prototype forests of 2-8 objects built by object literals, bear, bro and BaseObj.bear over a pool of 5 names (so shadowing "
+    chk.cov["rule"] = ("prototype forests of 2-8 objects built by object literals, bear, bro, BaseObj.bear, and bear/bro whose source object is kept in a variable and queried afterwards as a plain child of Obj; chains of 15/17/33 bear levels below a literal root queried at the leaf and in the middle; over a pool of 5 names (so shadowing "
                        "is constant), property kinds value / function / _missing, a unique own `tag` per object; for every object: o.n and o.n(arg) "
                        "for present / inherited / shadowed / absent names, o['n], which, keys, ancestors, proto, kindOf?, names that live only on "
                        "Obj / BaseObj (does the search reach the last link; children of BaseObj must NOT see Obj's properties). Oracle: a forest "
